@@ -127,6 +127,28 @@ def grid_from_kwargs(kw, coords=None):
     return out
 
 
+def big_cloud(case):
+    """Many points on a dyadic sub-lattice of an (nb_n x nb_e)-block grid, never on a block edge, some outside the region; returns
+    (easting, northing, label by floor division, region, spacing).  `case`: dict(nb_n, nb_e, W, S, dx, dy, n, seed) with dyadic W, S, dx, dy."""
+    rng = np.random.RandomState(case["seed"])  # a pure function of the generated case
+    nb_n, nb_e, n = case["nb_n"], case["nb_e"], case["n"]
+    sub = 8
+    ix = rng.randint(-sub, (nb_e + 1) * sub, size=n)
+    iy = rng.randint(-sub, (nb_n + 1) * sub, size=n)
+    # the first two points pin the corners of the region (an inferred region is then the block grid's region)
+    e = case["W"] + (ix + 0.5) * (case["dx"] / sub)
+    nn = case["S"] + (iy + 0.5) * (case["dy"] / sub)
+    col = np.clip(ix // sub, 0, nb_e - 1)
+    row = np.clip(iy // sub, 0, nb_n - 1)
+    region = (case["W"], case["W"] + nb_e * case["dx"], case["S"], case["S"] + nb_n * case["dy"])
+    return e, nn, row * nb_e + col, region, (case["dy"], case["dx"])
+
+
+big_cases = st.fixed_dictionaries(dict(nb_n=st.integers(1, 40), nb_e=st.integers(1, 40), W=st.sampled_from([0.0, -512.0, 4096.0, 1e6]), S=st.sampled_from([0.0, 128.0, -2e6]),
+                                       dx=st.sampled_from([0.5, 1.0, 4.0, 64.0]), dy=st.sampled_from([0.25, 1.0, 8.0, 64.0]),
+                                       n=st.sampled_from([20000, 50001, 120000]), seed=st.integers(0, 10**6), by=st.sampled_from(["spacing", "shape"])))
+
+
 def point_xy(lay, p):
     kx, fx, ky, fy = p
     if lay.get("pixel"):
